@@ -176,7 +176,9 @@ pub struct HeaderName(Cow<'static, str>);
 impl HeaderName {
     /// Creates a new header name
     pub fn new_from_ascii(ascii: String) -> Result<Self, InvalidHeaderName> {
-        if !ascii.is_empty() && ascii.len() <= 76 && ascii.is_ascii() && !ascii.contains([':', ' '])
+        if !ascii.is_empty()
+            && ascii.len() <= 76
+            && ascii.bytes().all(|b| matches!(b, b'!'..=b'~') && b != b':')
         {
             Ok(Self(Cow::Owned(ascii)))
         } else {
